@@ -49,6 +49,7 @@ var errClasses = []struct {
 	{regexp.MustCompile(`is of required type ".*" but is not also provided by the interface`), "ifaceExtraRequiredArg"},
 	{regexp.MustCompile(`^Must provide locations for directive\.$`), "directiveNoLocations"},
 	{regexp.MustCompile(`^Schema directives must be Directive but got: nil\.$`), "nilDirective"},
+	{regexp.MustCompile(`^Cannot add field to a thunk$`), "addFieldToThunk"},
 }
 
 func classify(err error) string {
@@ -95,6 +96,7 @@ type Dump struct {
 	PossibleTypes [][]interface{} `json:"possibleTypes"` // [a, [o…]]
 	IsPossible    [][]int         `json:"isPossible"`    // [a, o]
 	Directives    []BDir          `json:"directives"`    // Directives(): name, arguments
+	Parked        [][]interface{} `json:"parked"`        // [id, error class]: Error() of a type of the type map after the dump
 }
 
 func isNilPtr(t interface{}) bool {
@@ -300,6 +302,15 @@ func dumpSchema(s *graphql.Schema) (*Dump, string) {
 			}
 		}
 	}
+	// errors parked on the types of the type map (every lazy member has been forced by now)
+	out.Parked = [][]interface{}{}
+	for _, k := range sortedKeys(tm) {
+		if v := tm[k]; !isNilPtr(v) {
+			if e := v.Error(); e != nil {
+				out.Parked = append(out.Parked, []interface{}{d.id(v), classify(e)})
+			}
+		}
+	}
 	// types discovered only through PossibleTypes need a table row too
 	for len(out.Table) < len(d.order) {
 		t := d.order[len(out.Table)]
@@ -351,6 +362,13 @@ func toInt(v interface{}) int {
 // canon renders a dump by names: what the property determines about a built schema.
 func (d *Dump) canon() map[string]interface{} {
 	types := map[string]interface{}{}
+	parked := map[int]string{}
+	for _, p := range d.Parked {
+		if len(p) == 2 {
+			c, _ := p[1].(string)
+			parked[toInt(p[0])] = c
+		}
+	}
 	for _, e := range d.TypeMap {
 		key, _ := e[0].(string)
 		id := toInt(e[1])
@@ -384,7 +402,10 @@ func (d *Dump) canon() map[string]interface{} {
 			ms = append(ms, d.nameK(j))
 		}
 		sort.Strings(ms)
-		types[key] = map[string]interface{}{"kind": t.Kind, "name": t.Name, "fields": fs, "inputFields": ins, "interfaces": ifs, "members": ms,
+		if parked[id] != "" { // the field map of a type whose definition failed is whatever map iteration had reached
+			fs, ins = []string{"<masked>"}, []string{"<masked>"}
+		}
+		types[key] = map[string]interface{}{"kind": t.Kind, "name": t.Name, "fields": fs, "inputFields": ins, "interfaces": ifs, "members": ms, "err": parked[id],
 			"values": append([]string{}, t.Values...), "resolver": t.Resolver}
 	}
 	poss := map[string]interface{}{}
